@@ -195,7 +195,9 @@ static Outcome evaluate(const Json &plan, bool verbose = false) {
 }
 
 // which build of the library and of the header macros this binary holds: the library's assert()s are compiled in ("assertions") or out ("ndebug")
-#ifdef NDEBUG
+#if defined(NDEBUG) && !defined(UFW_USE_BUILTIN_SWAP)
+static const char *const BUILD_VARIANT = "ndebug+portable-swap";   // the twin ./check builds: release build, CMake option UFW_USE_BUILTIN_SWAP off
+#elif defined(NDEBUG)
 static const char *const BUILD_VARIANT = "ndebug";
 #else
 static const char *const BUILD_VARIANT = "assertions";
